@@ -5,7 +5,7 @@
    header (length field pointing to the end of that attribute) and everything before it. *)
 From Coq Require Import List Arith NArith Bool.
 From Coq.Strings Require Import Byte.
-From EZK Require Import Model.Forms9 Proofs.Forms9 Model.Forms8 Proofs.Forms8 Gen.Tables Lib.Bytes Model.C20 Proofs.C20 Model.C20p.
+From EZK Require Import Model.Forms10 Proofs.Forms10 Model.Forms9 Proofs.Forms9 Model.Forms8 Proofs.Forms8 Gen.Tables Lib.Bytes Model.C20 Proofs.C20 Model.C20p.
 Import ListNotations.
 Close Scope N_scope.
 Open Scope nat_scope.
@@ -133,3 +133,14 @@ Proof. exact digest_here. Qed.
 
 Theorem C20_zip_compare_refuted : forall digest k, digest_matches_form false digest (firstn k digest) = true.
 Proof. exact zip_accepts_prefix. Qed.
+
+(* behind an integrity attribute MESSAGE-INTEGRITY-SHA256 and FINGERPRINT stay visible (RFC 8489 order MI, MI-SHA256, FP), nothing else *)
+Theorem C20_after_integrity_guard : sha256_visible_after_integrity = true.
+Proof. reflexivity. Qed.
+
+Theorem C20_sha256_and_fingerprint_visible : sha256_visible_after_integrity = true ->
+  visible_after_integrity TIntegritySha256 = true /\ visible_after_integrity TFingerprint = true /\ visible_after_integrity TOtherAttr = false.
+Proof. exact visible_here. Qed.
+
+Theorem C20_sha256_hidden_refuted : visible_after_integrity_form false TIntegritySha256 = false.
+Proof. exact sha256_hidden_otherwise. Qed.
